@@ -448,13 +448,26 @@ def pipelines(tier, rng):
     return out
 
 
+def partial_option_pipelines():
+    """slope options given in part: what is left out takes the function's
+    default (region "baseline", strategy "shift")"""
+    return [("deviation_from_baseline", "all", None),
+            ("fit_constant_line", "approach", None),
+            ("deviation_from_baseline", None, "drift")]
+
+
 def run_curve(run, name, cols, k, plist, exprs, descr):
     for meth, region, strat in plist:
         steps = ["compute_tip_position", "correct_tip_offset",
                  "correct_force_slope", "correct_force_offset",
                  "correct_split_approach_retract", "smooth_height"]
+        so = {}
+        if region is not None:
+            so["region"] = region
+        if strat is not None:
+            so["strategy"] = strat
         opts = {"correct_tip_offset": {"method": meth},
-                "correct_force_slope": {"region": region, "strategy": strat}}
+                "correct_force_slope": so}
         prev = None
         for j in range(len(steps) + 1):
             try:
@@ -724,7 +737,10 @@ def check(run):
         if run.tier == "quick":
             # two pipelines per curve, rotating through methods x regions
             i = cat.index((name, cols, k))
-            plist = [plist[(2 * i) % 6], plist[(2 * i + 1) % 6]]
+            plist = [plist[(2 * i) % 6], plist[(2 * i + 1) % 6],
+                     partial_option_pipelines()[i % 3]]
+        else:
+            plist = plist + partial_option_pipelines()
         run_curve(run, name, cols, k, plist, exprs, descr)
     smoothing_cases(run, exprs, descr)
     pipeline_history_cases(run)
